@@ -4,6 +4,7 @@ import json
 import random
 
 import common
+import pipeline
 import tlc
 import oa
 
@@ -80,6 +81,7 @@ def run(pid, tier, seed):
         t["steps"] = [1]
         traces.append(t)
     res, runs = tlc.validate_parallel("OnionAddTrace", "OnionAddTrace.cfg", traces, nproc=12, chunk=400, timeout=1500)
+    pipeline.selftest_from(rep, "OnionAddTrace", "OnionAddTrace.cfg", traces, res)
     for r in runs:
         rep.cov["states"] += r.distinct
         rep.cov["transitions"] += r.generated
